@@ -494,10 +494,12 @@ def shards(tier, seed):
         nsh = 8
         out = [{"kind": "exhaustive", "nmax": 4, "maxops": 2, "nshards": nsh, "shard": i} for i in range(nsh)]
         out += [{"kind": "random", "rseed": seed * 1000 + i, "count": 375} for i in range(8)]
+        out += [{"kind": "repo_tests", "modules": ["tests/test_rate_merger.py"]}]
     else:
         nsh = 48
         out = [{"kind": "exhaustive", "nmax": 5, "maxops": 3, "maxops_at_nmax": 3, "nshards": nsh, "shard": i} for i in range(nsh)]
         out += [{"kind": "random", "rseed": seed * 1000 + i, "count": 3200} for i in range(16)]
+        out += [{"kind": "repo_tests", "modules": ["tests/test_rate_merger.py"]}]
     return out
 
 
@@ -505,6 +507,9 @@ def run_shard(spec):
     rm, tr = install()
     if spec["kind"] == "exhaustive":
         run_exhaustive(rm, spec)
+    elif spec["kind"] == "repo_tests":
+        from vlib import repo_tests
+        repo_tests.run(spec["modules"])
     else:
         run_random(rm, tr, spec)
 
